@@ -9,10 +9,15 @@ use crate::{obs::Obs, rng::Rng};
 pub mod c01;
 pub mod c02;
 pub mod c03;
+pub mod c04;
 pub mod c05;
+pub mod c06;
 pub mod c07;
+pub mod c08;
+pub mod c09;
 pub mod c11;
 pub mod c13;
+pub mod c16;
 
 #[derive(Clone, Copy, Debug, PartialEq, Eq)]
 pub enum Tier {
@@ -39,8 +44,17 @@ pub struct PropDef {
   pub cases: fn(Tier) -> usize,
 }
 
+/// Exhaustive enumerations that precede the random cases of a property:
+/// global case number -> case (None when the enumeration is exhausted).
+pub fn enumeration(id: &str) -> Option<fn(u64, Tier) -> Option<Value>> {
+  match id {
+    "C16" => Some(c16::enum_case),
+    _ => None,
+  }
+}
+
 pub fn all() -> Vec<PropDef> {
-  vec![c01::def(), c02::def(), c03::def(), c05::def(), c07::def(), c11::def(), c13::def()]
+  vec![c01::def(), c02::def(), c03::def(), c04::def(), c05::def(), c06::def(), c07::def(), c08::def(), c09::def(), c11::def(), c13::def(), c16::def()]
 }
 
 pub fn find(id: &str) -> Option<PropDef> {
